@@ -163,16 +163,27 @@ func runWorldA(rc *RunCtx, prop string) *RunResult {
 		return simenv.NewVersion(p, &simenv.VersionDeps{})
 	}
 
-	deltas := []uint64{uint64(3 + T.Draw(40, "cfg.timedelta"))}
+	// the maximum operation time delta: usually 3-42 s, now and then 0 (a missing anchorUntil then means the
+	// zero-length window [anchorFrom, anchorFrom]) or 1
+	drawDelta := func(label string) uint64 {
+		d := uint64(3 + T.Draw(40, label))
+		if x := T.Draw(12, label+".edge"); x < 2 {
+			d = uint64(x)
+		}
+
+		return d
+	}
+
+	deltas := []uint64{drawDelta("cfg.timedelta")}
 	genesis := []uint64{0}
 
 	if T.Draw(3, "cfg.twoversions") == 0 {
 		genesis = append(genesis, w.now+uint64(1+T.Draw(20, "cfg.genesis2")))
-		deltas = append(deltas, uint64(3+T.Draw(40, "cfg.timedelta2")))
+		deltas = append(deltas, drawDelta("cfg.timedelta2"))
 
 		if T.Draw(2, "cfg.threeversions") == 0 {
 			genesis = append(genesis, genesis[1]+uint64(1+T.Draw(20, "cfg.genesis3")))
-			deltas = append(deltas, uint64(3+T.Draw(40, "cfg.timedelta3")))
+			deltas = append(deltas, drawDelta("cfg.timedelta3"))
 		}
 	}
 
@@ -1400,8 +1411,7 @@ func extractDoc(d document.Document) refmodel.Doc {
 		for _, e := range l {
 			em, _ := e.(map[string]interface{})
 			id, _ := em["id"].(string)
-			ep, _ := em["serviceEndpoint"].(string)
-			out.Svcs = append(out.Svcs, refmodel.Entry{ID: id, Mark: strings.TrimPrefix(ep, "https://sim.example/")})
+			out.Svcs = append(out.Svcs, refmodel.Entry{ID: id, Mark: workload.SvcMark(em)})
 		}
 	}
 
@@ -1852,6 +1862,14 @@ func (w *aWorld) oracleTimeTravel() {
 		// the real REST resolve handler (query parameter parsing) before it reaches the processor
 		zones := []*time.Location{time.UTC, time.FixedZone("", 2*3600), time.FixedZone("", -5*3600), time.FixedZone("", 5*3600+1800)}
 		vt := time.Unix(int64(t), 0).In(zones[w.k.T.Draw(len(zones), "tt.zone")]).Format(time.RFC3339)
+
+		// ... and with fractional seconds (as Date.toISOString writes them): t+0.7 s is still "at or before" only for
+		// operations anchored at or before t
+		if f := w.k.T.Draw(6, "tt.fraction"); f >= 3 {
+			nanos := []int64{500_000_000, 700_000_000, 999_000_000}[f-3]
+			vt = time.Unix(int64(t), nanos).In(zones[w.k.T.Draw(len(zones), "tt.zone")]).Format(time.RFC3339Nano)
+			w.k.Count("probe:version-time-with-fractional-seconds")
+		}
 		timeOpt := document.WithVersionTime(vt)
 
 		if w.k.T.Draw(2, "tt.rest") == 0 {
